@@ -342,10 +342,25 @@ def gen_depsops(r, st, tabs, n):
     nobj = len(st["objs"])
     if nobj == 0:
         return ops
+    parents = [i for i, ob in enumerate(st["objs"]) if ob["ch"] and ob["fs"]]
     for _ in range(n):
         o = r.randrange(nobj)
         nf = len(st["objs"][o]["fs"])
         if nf == 0:
+            continue
+        if parents and r.random() < 0.3:
+            # aimed at the "parent inactive => children only probed" branch and at restore/free on (de)activation:
+            # put a parent to sleep, enable a feature that has children requirements, wake it up
+            o = r.choice(parents)
+            tab = tabs.get(st["objs"][o]["cls"], [])
+            withc = [f for f, ft in enumerate(tab) if ft["C"] and f != 0]
+            ops.append("depsop %d disable 0" % o)
+            if withc:
+                f = r.choice(withc)
+                ops.append("depsop %d enable %d 0 1 0" % (o, f))
+                if r.random() < 0.5:
+                    ops.append("depsop %d disable %d" % (o, f))
+            ops.append("depsop %d enable 0 0 1 0" % o)
             continue
         x = r.random()
         f = r.randrange(nf)
